@@ -12,7 +12,8 @@ from checks import c01
 PROPERTY = 'C19'
 RULE = ('deviation-bounded product (<=3 of 10 slots) over abstract peptides on the residue strings K, KK, PEK, KPK, PEKK '
         '(quick) + PEKTK, AAKA (thorough); per state the four expansions for every size/repeat in 1..n, None and n+1, '
-        'through the string function and the annotation method; a state = one peptide (all sizes inside); non-trivial = '
+        'through the string function, the annotation method and the method of an object whose modification map was '
+        'filled right to left; a state = one peptide (all sizes inside); non-trivial = '
         'every state')
 ASSUMPTIONS = ['results are compared in order with itertools.permutations / combinations / combinations_with_replacement / '
                'product over the unit list; product is capped at n<=4 (n^n results)']
@@ -109,11 +110,19 @@ def check(case, ctx):
             expected = [with_units(P, ch) for ch in it(k)]
             if len(expected) != count(k):
                 raise AssertionError('oracle count')
-            for how in ('function', 'method'):
+            for how in ('function', 'method', 'method-on-reversed-map'):
                 if how == 'function':
                     st, got = lib.call(getattr(p, name), s, size)
-                else:
+                elif how == 'method':
                     a = p.parse(s)
+                    st, got = lib.call(getattr(a, name), size)
+                else:
+                    # the same peptide as an object whose residue-modification map was filled right to left
+                    if len(res) < 2 or size not in (None, 1, n):
+                        continue
+                    d = p.parse(s).dict()
+                    d['internal_mods'] = {k2: d['internal_mods'][k2] for k2 in sorted(d['internal_mods'], reverse=True)}
+                    a = p.create_annotation(**d)
                     st, got = lib.call(getattr(a, name), size)
                 ctx.evals += 1
                 call = [name, s, size, how]
